@@ -62,7 +62,7 @@ func subStreamSequences() mon.Sub {
 				for _, h := range hs {
 					d = append(d, h.String())
 				}
-				return map[string]interface{}{"headers": d, "plan": plan.String()}
+				return map[string]interface{}{"headers": d, "plan": plan.String(), "payloads_taken_from_the_source_directly": c.I%3 == 2}
 			}
 			// reference run: ws.ReadHeader + exact payload reads over the same bytes
 			c1 := xport.NewChunker(stream, plan)
@@ -82,6 +82,7 @@ func subStreamSequences() mon.Sub {
 			c2 := xport.NewChunker(stream, plan)
 			rd := &wsutil.Reader{Source: c2, SkipHeaderCheck: true, State: parserStates[c.I%len(parserStates)]}
 			open := false // a non-final data frame went before: the Reader drains control frames by itself then
+			direct := c.I%3 == 2
 			for i := range hs {
 				g, err := rd.NextFrame()
 				if err != nil {
@@ -96,6 +97,16 @@ func subStreamSequences() mon.Sub {
 				if !(ctl && open) && len(payloads[i]) > 0 {
 					// (a control frame inside an open message is consumed by NextFrame itself)
 					p := make([]byte, len(payloads[i]))
+					if direct {
+						// the application takes the payload from the source itself (a header-only use of the
+						// decoder: "consumes not one byte beyond the header" is what makes that possible)
+						if _, err := io.ReadFull(c2, p); err != nil {
+							c.Inconclusive("harness: direct payload read failed")
+							return
+						}
+						continueOpen(&open, ctl, hs[i].Fin)
+						continue
+					}
 					if _, err := io.ReadFull(readerOnly{rd}, p); err != nil {
 						c.Fail("sequence/stream/payload-error", fmt.Sprintf("reading the %d payload bytes of frame %d: %v", len(p), i, err), det())
 						return
@@ -113,9 +124,15 @@ func subStreamSequences() mon.Sub {
 				c.Fail("sequence/stream/consumed", fmt.Sprintf("the streaming reader consumed %d of %d bytes", c2.Pos, len(stream)), det())
 				return
 			}
-			c.Classf("n=%d first-open=%v plan=%s", n, !hs[0].Fin && !ref.IsControl(hs[0].Op), plan.Kind)
+			c.Classf("n=%d first-open=%v plan=%s direct=%v", n, !hs[0].Fin && !ref.IsControl(hs[0].Op), plan.Kind, direct)
 			c.Sample(det())
 		},
+	}
+}
+
+func continueOpen(open *bool, ctl, fin bool) {
+	if !ctl {
+		*open = !fin
 	}
 }
 
